@@ -303,7 +303,7 @@ void libvm_execute_build_in(vm * machine, bytecode * code)
     case LIB_MATH_C_STRING_PTR:
     {
         char ** p = NULL;
-        mem_ptr str_b = gc_get_string_ref(machine->collector, machine->stack[machine->sp--].addr);
+        mem_ptr str_b = gc_get_string_ref(machine->collector, machine->stack[machine->sp].addr);
         if (str_b != nil_ptr)
         {
             p = gc_get_string_ptr(machine->collector, str_b);
